@@ -21,7 +21,7 @@ for n, p, needs, res in rows:
 missed = [r for r in rows if 'MISSED' in r[3] or 'NOT caught' in r[3]]
 out += ["", "Summary: %d kept, %d caught by the first version of the check, %d missed at first and caught after strengthening"
         " (what was added is in the *As built* paragraphs of section 4), %d outside the quantifier of the property it was written for"
-        " (C03-m1, C03-m4, C03-m12: need two or three goroutines; caught by C04 and/or C05). Eleven rounds were run (first-try miss rates 64%%, 49%%, 33%%, 38%%, 37%%, 13%%, 42%%, 49%%, 48%% and 38%% in rounds 2..11 - from round 8 on the agents were asked for triggers of a KIND not seen before; every miss was answered by a strengthened monitor; from round 6 on the misses were measured with the checks as committed before the round, and four produced changes (rounds 6, 9 and 10) were judged not to break their property and discarded - section 7.1): from the second round on, the agents were given the names and triggers of the earlier changes and asked for different, harder ones. During round 11 all 411 earlier changes were re-run against the current checks on a heavily loaded machine: three were no longer caught (C10-m1 and C18-m1 had been caught by timing luck, C11-m6 had been silenced by an observer that grew in round 5); each got a deterministic scenario (As built, C10, C11, C18) and is caught again. After the last change of a monitor the kept changes were re-run once more on the final code: all 248 of C01-C11 and the first 171 of C12-C20 (in name order, up to C19-m20-recvqueued-stack-batch-not-flushed-on-close, when the clock ran out) are caught; the hang-type changes of C19 whose verdict moved to core.PatientWait were re-run separately and are caught." % (len(rows), len(rows) - len(missed), len([r for r in missed if 'MISSED' in r[3]]), len([r for r in missed if 'NOT caught' in r[3]])),
+        " (C03-m1, C03-m4, C03-m12: need two or three goroutines; caught by C04 and/or C05). Eleven rounds were run (first-try miss rates 64%%, 49%%, 33%%, 38%%, 37%%, 13%%, 42%%, 49%%, 48%% and 38%% in rounds 2..11 - from round 8 on the agents were asked for triggers of a KIND not seen before; every miss was answered by a strengthened monitor; from round 6 on the misses were measured with the checks as committed before the round, and four produced changes (rounds 6, 9 and 10) were judged not to break their property and discarded - section 7.1): from the second round on, the agents were given the names and triggers of the earlier changes and asked for different, harder ones. During round 11 all 411 earlier changes were re-run against the current checks on a heavily loaded machine: three were no longer caught (C10-m1 and C18-m1 had been caught by timing luck, C11-m6 had been silenced by an observer that grew in round 5); each got a deterministic scenario (As built, C10, C11, C18) and is caught again. After the last change of a monitor all 451 kept changes were re-run once more on the final code (tools/reverify_all.sh, three streams): all 451 are caught, the hang-type ones of C10 and C19 through core.PatientWait." % (len(rows), len(rows) - len(missed), len([r for r in missed if 'MISSED' in r[3]]), len([r for r in missed if 'NOT caught' in r[3]])),
         "<!-- SEEDED-TABLE-END -->"]
 p = here + '/DESIGN.md'
 s = open(p).read()
